@@ -13,7 +13,7 @@ class Finding:
         ob = self.kv.get('ob', '')
         return ob == (label or '') or ob == check_id or (label and ob == label.split('.', 1)[-1])
     def matches_scenario(self, prop, family, scenario):
-        if self.prop != prop or self.kv.get('monitor') != family: return False
+        if (self.prop != prop and prop != 'C13') or self.kv.get('monitor') != family: return False      # C13 inherits every finding
         return fnmatch.fnmatch(scenario, self.kv.get('scenario', ''))
     def text(self):
         return self.kv.get('what', self.raw)
